@@ -39,7 +39,7 @@ SOURCES = ['path', 'gz', 'bz2', 'memory']
 ENCODINGS = [None, 'utf-8', 'utf-8-sig', 'utf-16', 'utf-16-le', 'utf-32', 'latin-1', 'cp1252', 'ascii']
 REQUIRED = (['fmt:' + f for f in FORMATS] + ['source:' + s for s in SOURCES] + ['encoding:%s' % e for e in ENCODINGS] +
             ['quoting:%d-judged' % q for q in (0, 1, 2, 3)] + ['cell-with-delimiter', 'cell-with-quotechar', 'cell-with-CR', 'cell-with-LF',
-             'cell-with-CRLF', 'cell-with-NUL', 'append-bytes-compared', 'write_header=False', 'header-on-read', 'stdlib-not-lossless-skipped', 'target-held-older-longer-content', 'append-with-write_header=True', 'tojson-prefix-suffix'])
+             'cell-with-CRLF', 'cell-with-NUL', 'append-bytes-compared', 'write_header=False', 'header-on-read', 'stdlib-not-lossless-skipped', 'target-held-older-longer-content', 'append-with-write_header=True', 'tojson-prefix-suffix', 'fromjson-with-missing'])
 
 ALPHA = [',', ';', '\t', '|', '"', "'", '\r', '\n', '\r\n', '\0', ' ', 'é', 'ü', '€', '漢', 'a', 'b', 'Z', '0', '1', '', '']
 TYPED = [None, 0, 1, -2, 2.5, True, False, gen.D(2020, 1, 1), (1, 'x'), b'by', 1e100]
@@ -453,6 +453,20 @@ def _judge_json(case, ctx):
             out.append({'kind': 'exception', 'fn': 'fromjson', 'detail': got.text, 'where': got.where})
         elif util.crows(got) != util.crows(exp):
             out.append({'kind': 'roundtrip-differs', 'fn': 'tojson/fromjson' + ('(lines)' if lines else ''), 'expected': exp, 'observed': got})
+        if not out:
+            # fromjson's `missing` stands in for keys an object does not have; tojson writes every field of every row, so the
+            # same table comes back (a null that was written is a value, not an absent key), with or without an explicit header
+            for rkw in ({'missing': 'NA'}, {'missing': 'NA', 'header': list(exp_hdr)}):
+                if lines:
+                    rkw['lines'] = True
+                got2 = util.attempt_rows(lambda: petl.fromjson(_reader(t1), **rkw))
+                ctx.seen('fromjson-with-missing')
+                if isinstance(got2, util.Raised):
+                    out.append({'kind': 'exception', 'fn': 'fromjson(missing=)', 'detail': got2.text, 'where': got2.where})
+                elif util.crows(got2) != util.crows(exp):
+                    out.append({'kind': 'roundtrip-differs', 'fn': 'tojson/fromjson(%s)' % ', '.join(sorted(rkw)), 'expected': exp, 'observed': got2})
+                if out:
+                    break
     finally:
         _cleanup(t1)
     return out
